@@ -40,6 +40,23 @@ PROPS = {
         "trusted": COMMON_TRUSTED + MODEL_TRUSTED + ["not modelled: FileContent::with_cow (three variants hand over the same bytes) — exercised by the correspondence only"],
         "assumptions": ["loaders are deterministic functions of the bytes and extension they are handed"],
     },
+    "C16": {
+        "modules": ["AmVerif.Props.C16"],
+        "engines": [{"name": "bytes", "quick": 240, "thorough": 6000}],
+        "rule": "case 0: every construction path (From<&[u8]>, from_slice, From<Vec>, from_vec, Box, Cow borrowed/owned, FromIterator with exact and unknown size hint, BytesLoader borrowed/owned) x lengths {0,1,7,8,9,33} x capacity {0 / exact, len+1, len+24}; case 1: every order of dropping three handles living on three threads for 4 paths x 2 capacities; case 2: all 256 single bytes, lead x continuation boundary pairs / triples / quadruples and a table of 34 valid / overlong / surrogate / >U+10FFFF / truncated fragments through from_utf8, StringLoader and the four serde visit_* paths, string comparisons, serde of SharedBytes; later cases cycle: 4 of 6 random forced schedules (clone / clone via From<&SharedBytes> / deref / move / drop / cmp / hash over 1-3 buffers of length 0..8192 (64 KiB, one 1 MiB per 97 cases in thorough), every op executed on the named one of 6 worker threads, ~8% ops on dead or unknown handles), 1 of 6 free-running stress (2-8 threads, search only, outcome compared with the schedule-independent model outcome), 1 of 6 random strings. A case is non-trivial when it builds at least one buffer or string; distinct = distinct op/result transcripts",
+        "trusted": COMMON_TRUSTED + [
+            "modelled, not verified: the weak memory model (C16_orderings_ok checks the extracted orderings against the textbook Release-decrement / Acquire-before-free requirement, it does not prove that requirement sufficient); std::sync::atomic RMWs as single sequentially-consistent steps; usize as unbounded Nat (no count overflow)",
+            "modelled, not verified: core::alloc::Layout::{new, extend, from_size_align} for a 64-bit target (Model/BytesBase.lean), Vec<u8> allocation behaviour (no block when capacity is 0; from_raw_parts/drop frees Layout(capacity,1)), the system allocator; observed on every run through the accounting allocator of the harness",
+            "UTF-8 validity is Lean core's ByteArray.IsValidUTF8 (= being List.utf8Encode of some List Char); Rust's core::str::from_utf8 is tied to it by correspondence only",
+            "amx/src/bytes.rs translation of bytes.rs / string.rs into Gen/Bytes.lean (refuses unknown shapes)",
+        ],
+        "assumptions": [
+            "64-bit target: usize / AtomicUsize / *const u8 are 8 bytes, 8-aligned; isize::MAX = 2^63-1",
+            "a handle is used only by code that owns it or holds a reference to it (Rust's ownership discipline; no unsafe duplication of a SharedBytes), and from_utf8_unchecked callers respect its contract",
+            "the reference count does not overflow usize",
+            "atomics are sequentially consistent per location; Release/Acquire on the count suffices to order the last use before the free (textbook argument, not proved)",
+        ],
+    },
     "C18": {
         "modules": ["AmVerif.Props.C18"],
         "engines": [{"name": "rid", "quick": 60, "thorough": 2000}],
